@@ -216,9 +216,11 @@ EGLPNUM_TYPENAME_QSLIB_INTERFACE int EGLPNUM_TYPENAME_QSopt_primal (
 	rval = check_qsdata_pointer (p);
 	CHECKRVALG (rval, CLEANUP);
 
-	/* If both the basis and the cache exist, then skip the optimization */
+	/* If both the basis and the cache exist, then skip the optimization - but
+	 * only while that basis is the factored one the cached solution belongs to
+	 * (a basis loaded since then has to be used, as EGLPNUM_TYPENAME_QSopt_dual does) */
 
-	if (!p->basis || !p->cache)
+	if (!p->basis || !p->cache || !p->factorok)
 	{
 		rval = opt_work (p, status, 0);
 		CHECKRVALG (rval, CLEANUP);
